@@ -232,5 +232,25 @@ static inline int c10_fits_free(const struct c10_abs *st, size_t rl)
         if (i < st->n && 8 * st->fs[i] >= rl) r = 1;
     return r;
 }
+/* memcpy as its contract (contracts/libc_contracts.h, proved for the shim by units/C08/libc_memcpy_contract): source
+ * readable, destination writable, no overlap; afterwards dst[0..n) == src[0..n).  The copy is modelled for ONE ghost
+ * word index (arbitrary, fixed by the harness: the statement about that word is the statement about every word); the
+ * call is recorded so that the harness can check that the destination range is the payload of the block realloc
+ * returns - no other clause reads those words, which is why leaving the other destination words unmodelled is sound.
+ * cbmc's built-in memcpy (array_replace of a symbolic-size slice of the word array) is too imprecise here. */
+#if defined(C10_MEMCPY_CONTRACT) && !defined(REPLAY)
+static size_t g_mc_calls, g_mc_n, g_mc_kw;
+static const void *g_mc_s;
+static void *g_mc_d;
+void *memcpy(void *d, const void *s, size_t n)
+{
+    __CPROVER_assert(n == 0 || (__CPROVER_r_ok(s, n) && __CPROVER_w_ok(d, n)), "memcpy precondition: source readable, destination writable for n bytes");
+    __CPROVER_assert(n == 0 || !__CPROVER_same_object(d, s) || __CPROVER_POINTER_OFFSET(d) + (__CPROVER_ssize_t)n <= __CPROVER_POINTER_OFFSET(s) ||
+                     __CPROVER_POINTER_OFFSET(s) + (__CPROVER_ssize_t)n <= __CPROVER_POINTER_OFFSET(d), "memcpy precondition: the objects do not overlap");
+    g_mc_calls++; g_mc_d = d; g_mc_s = s; g_mc_n = n;
+    if (8 * g_mc_kw + 8 <= n) ((size_t *)d)[g_mc_kw] = ((const size_t *)s)[g_mc_kw];
+    return d;
+}
+#endif
 #define C10_ROUND_WRAPS(len) ((len) > (size_t)-1 - (__WORDSIZE - 1))
 #endif
